@@ -45,8 +45,47 @@ def run_case(case, rng):
     pinned = arr.absorbing.copy()
     case.family = fam
     case.params = dict(rep=rep, gamma=gamma, n=len(S), cap=cap)
-    res = case.call("MultichainPolicyIteration.plan_on", MultichainPolicyIteration(max_iterations=cap).plan_on, mdp,
-                    facts=dict(gamma=gamma))
+    planner = MultichainPolicyIteration(max_iterations=cap)
+    import copy
+    sib = copy.deepcopy(sp)                       # same labels and shapes, fewer available actions, other rewards
+    for s_ in sib.states:
+        if len(sib.acts[s_]) >= 2 and rng.random() < 0.5:
+            sib.acts[s_] = (rng.choice(sib.acts[s_]),)
+    for k_ in sib.R:
+        sib.R[k_] = -sib.R[k_] + 1.0
+    sib_mdp = Bd.SpecMDP(sib)
+    sib_mdp._state_list = tuple(mdp.state_list)
+    sib_mdp._action_list = tuple(mdp.action_list)
+    mode = rng.choice(["fresh", "fresh", "reuse_before", "reuse_before_superset", "read_after"])
+    if mode == "reuse_before":
+        case.call("plan_on(sibling first)", planner.plan_on, sib_mdp)
+        case.count("planner_reused")
+    if mode == "reuse_before_superset":
+        # first a sibling in which every state ALSO offers the actions it lacks here, and they pay well: its solution
+        # uses actions that are unavailable in the judged problem (a warm start must not leak them)
+        sup = copy.deepcopy(sp)
+        universe = list(mdp.action_list)
+        for s_ in sup.states:
+            if s_ in sup.flag:
+                continue
+            for a_ in universe:
+                if a_ not in sup.acts[s_]:
+                    a0 = sup.acts[s_][0]
+                    sup.acts[s_] = tuple(sup.acts[s_]) + (a_,)
+                    sup.P[(s_, a_)] = list(sup.P[(s_, a0)])
+                    sup.kind[(s_, a_)] = sup.kind[(s_, a0)]
+                    for t_, _ in sup.P[(s_, a0)]:
+                        sup.R[(s_, a_, t_)] = sup.R.get((s_, a0, t_), 0.0) + 10.0
+        sup_mdp = Bd.SpecMDP(sup)
+        sup_mdp._state_list = tuple(mdp.state_list)
+        sup_mdp._action_list = tuple(mdp.action_list)
+        case.call("plan_on(superset sibling first)", planner.plan_on, sup_mdp)
+        case.count("planner_reused")
+    res = case.call("MultichainPolicyIteration.plan_on", planner.plan_on, mdp, facts=dict(gamma=gamma))
+    if mode == "read_after" and res is not case.FAIL:
+        case.call("plan_on(sibling afterwards)", MultichainPolicyIteration(max_iterations=cap).plan_on, sib_mdp)
+        case.call("plan_on(sibling afterwards, same planner)", planner.plan_on, sib_mdp)
+        case.count("result_read_after_later_plans")
     case.count("plan_calls")
     case.nontrivial = len(S) >= 2 and bool((arr.avail.sum(-1) >= 2).any() or ((arr.T > 0).sum(-1) >= 2).any())
     case.sig(fam, rep, len(S), len(A), gamma, cap, int((arr.T > 0).sum()), int(arr.avail.sum()), int(pinned.sum()))
